@@ -7,6 +7,7 @@ from typing import Any, Dict, List, Tuple
 
 from .. import symt
 from ..core import Ctx
+from ..index import AnalysisError
 from ..ring import Rat, reset_relations
 from ..symt import InterpError, STensor, Unsupported, sfunc, to_rat
 from .gridsym import fresh_facts
@@ -124,6 +125,19 @@ def run_regularisers(ctx: Ctx) -> None:
                 s3 = it.call(fns[name], u.mul(3), mode=mode, spacing=sp, reduction="none")
                 if not teq(s3, none.mul(9)):
                     return False, f"{name} does not scale with the square of the field"
+            # every regulariser and option set: 'mean' / 'sum' are the mean / sum of the 'none' output
+            variants = [("grad_loss", dict(p=2, q=1)), ("grad_loss", dict(p=2, q=2)), ("grad_loss", dict(p=1, q=2)), ("grad_loss", dict(p=2)),
+                        ("grad_loss", dict(p=1, q=3)), ("grad_loss", {}), ("total_variation_loss", {}), ("curvature_loss", {}),
+                        ("elasticity_loss", dict(first_parameter=2, second_parameter=3)),
+                        ("bending_loss", {}), ("diffusion_loss", {}), ("divergence_loss", {})]
+            for name, kw in variants:
+                none = it.call(fns[name], u, mode=mode, spacing=sp, reduction="none", **kw)
+                if none.numel() < 2:
+                    raise AnalysisError(f"{name}: 'none' output has a single entry (reductions not distinguishable)")
+                if not teq(it.call(fns[name], u, mode=mode, spacing=sp, reduction="sum", **kw), none.sum()):
+                    return False, f"{name}({kw}): 'sum' is not the sum of 'none'"
+                if not teq(it.call(fns[name], u, mode=mode, spacing=sp, reduction="mean", **kw), none.mean()):
+                    return False, f"{name}({kw}): 'mean' is not the mean of 'none'"
             # linear transforms
             M = STensor.symbols("M", [1, D, D + 1])
             for name in ("grad_loss", "bending_loss", "curvature_loss", "divergence_loss", "diffusion_loss", "total_variation_loss"):
